@@ -1,6 +1,7 @@
 package props
 
 import (
+	"errors"
 	"fmt"
 	"math/big"
 	"strings"
@@ -23,6 +24,12 @@ type powerInv struct {
 	pending  error
 	// statistics
 	Checks, Operators, BelowMin, Unpriced, MultiAsset, FreshAVS, OptedOutSeen int
+	// AsC09: the oracle judges the second sentence of C09 - an AVS whose voting-power update
+	// fails (it supports an asset the oracle cannot price) keeps exactly its previous records, and
+	// every other AVS of the same epoch end is still updated (violations are reported under C09)
+	AsC09                                             bool
+	FailedItems, FailedWithOperators, OthersAfterFail int
+	recorded                                          map[string]string // AVS -> digest of its recorded values before the block
 }
 
 func newPowerInv() *powerInv { return &powerInv{opted: map[string]bool{}} }
@@ -51,6 +58,7 @@ func (inv *powerInv) expect(m *Machine) error {
 	}
 	inv.expected = map[string]map[string]opValues{}
 	inv.avsAt = map[string]avstypes.AVSInfo{}
+	inv.recorded = map[string]string{}
 	m.C.App.AVSManagerKeeper.IterateAVSInfo(ctx, func(_ int64, info avstypes.AVSInfo) bool {
 		addr := strings.ToLower(info.AvsAddress)
 		inv.avsAt[addr] = info
@@ -59,6 +67,7 @@ func (inv *powerInv) expect(m *Machine) error {
 			per[op.Bech32()] = expectedValues(m, ctx, v, op.Bech32(), info.AssetIDs)
 		}
 		inv.expected[addr] = per
+		inv.recorded[addr] = inv.recordedDigest(m, info)
 		return false
 	})
 	return nil
@@ -123,13 +132,32 @@ func (inv *powerInv) compare(m *Machine) error {
 			continue
 		}
 		ended := before
+		failedNow, okNow := 0, 0
+		defer func() {
+			if failedNow > 0 {
+				inv.OthersAfterFail += okNow
+			}
+		}()
 		for _, addr := range sortedKeys(inv.avsAt) {
 			info := inv.avsAt[addr]
 			if info.EpochIdentifier != e.Identifier || ended < int64(info.StartingEpoch)-1 {
 				continue
 			}
+			failedBefore := inv.FailedItems
 			if err := inv.checkAVS(m, addr, info, ended); err != nil {
+				var v *Violation
+				if inv.AsC09 && errors.As(err, &v) && !strings.HasPrefix(v.ID, "C09.") && inv.FailedItems > 0 {
+					return violation("C09.I3.other-block-items-not-processed", "an AVS whose update fails ended its epoch in the same block; %s", v.Error())
+				}
 				return err
+			}
+			if inv.FailedItems > failedBefore {
+				failedNow++
+				if strings.Contains(inv.recorded[addr], "/") {
+					inv.FailedWithOperators++
+				}
+			} else {
+				okNow++
 			}
 		}
 	}
@@ -159,9 +187,49 @@ func dec18(s fmt.Stringer) *big.Int {
 	return v
 }
 
+// recordedDigest renders everything the operator module records for an AVS.
+func (inv *powerInv) recordedDigest(m *Machine, info avstypes.AVSInfo) string {
+	ctx := m.C.Ctx()
+	out := ""
+	if v, err := m.C.App.OperatorKeeper.GetAVSUSDValue(ctx, info.AvsAddress); err == nil {
+		out += "avs=" + v.String() + ";"
+	} else {
+		out += "avs=none;"
+	}
+	all, err := m.C.App.OperatorKeeper.GetAllOperatorUSDValues(ctx)
+	if err == nil {
+		for _, e := range all {
+			if strings.HasPrefix(strings.ToLower(e.Key), strings.ToLower(info.AvsAddress)+"/") {
+				out += e.Key + "=" + e.OptedUSDValue.String() + ";"
+			}
+		}
+	}
+	return out
+}
+
+// unpriceable: does the AVS support an asset the oracle cannot price?
+func unpriceable(m *Machine, info avstypes.AVSInfo) bool {
+	for _, id := range info.AssetIDs {
+		for _, u := range m.W.Cfg.UnpricedAssets {
+			if strings.EqualFold(id, m.W.AssetIDs[u]) {
+				return true
+			}
+		}
+	}
+	return false
+}
+
 func (inv *powerInv) checkAVS(m *Machine, addr string, info avstypes.AVSInfo, ended int64) error {
 	c := m.C
 	ctx := c.Ctx()
+	if unpriceable(m, info) {
+		// this AVS's update fails as a whole: nothing of it may have been written
+		inv.FailedItems++
+		if now := inv.recordedDigest(m, info); now != inv.recorded[addr] {
+			return violation("C09.I3.failed-block-item-left-trace", "epoch %d of %s ended: the voting-power update of AVS %s fails (it supports an asset the oracle cannot price) but its records changed: before %s after %s", ended, info.EpochIdentifier, addr, inv.recorded[addr], now)
+		}
+		return nil
+	}
 	inv.Checks++
 	if ended == int64(info.StartingEpoch)-1 {
 		inv.FreshAVS++
